@@ -1372,3 +1372,30 @@ mutant("opc7-flatten-iterator-one-level-only", ["C12", "C01"], CONS, """        
                 for x in flatten_iterator(xs):
                     yield x""", """            for xs in arg:
                 yield xs""", "OPC-7")
+# ---- round 11 (error handling) ---------------------------------------------------------------------
+mutant("z3m5-constant-alldifferent-left-to-distinct", ["C01", "C02"], Z3, """            if not any(z3.is_expr(x) for x in operands):
+                # z3.Distinct needs at least one z3 term: decide a constant-only list here
+                return len(set(operands)) == len(operands)
+            return z3.Distinct(operands)""", """            return z3.Distinct(operands)""", "Z3M-5", "the original defect: z3.Distinct raises without a z3 term")
+mutant("z3m5-constant-alldifferent-answered-true", ["C01", "C02"], Z3, """                return len(set(operands)) == len(operands)""", """                return True""", "Z3M-5")
+variant("z3m5-constant-alldifferent-by-pairwise-loop", ["C01", "C02"], Z3, """                return len(set(operands)) == len(operands)""",
+        """                return all(a != b for i, a in enumerate(operands) for b in operands[i + 1:])""", "pairwise comparison instead of a set")
+mutant("gen1-timeout-swallowed-unless-verbose", "C19", GCORE, """            is_sat, *answer = solver(next_problem)
+            if not is_sat:
+                continue
+""", """            try:
+                is_sat, *answer = solver(next_problem)
+                if not is_sat:
+                    continue
+            except subprocess.TimeoutExpired:
+                if verbose:
+                    continue
+""", "GEN-1")
+mutant("cfg1-unknown-default-falls-back", "C20", SOLVER, """    backend_name = config.default_backend
+    return _get_backend_by_name(backend_name)
+""", """    backend_name = config.default_backend
+    try:
+        return _get_backend_by_name(backend_name)
+    except ValueError:
+        return _get_backend_by_name("z3")
+""", "CFG-1")
